@@ -133,7 +133,11 @@ def divergence_kind(d, req):
 def judge_full(res, code, cfg, r, d=None, req=None):
     case = {"code": code.hex(), "cfg": cfg, "full": True, "rand_seed": (req or {}).get("rand_seed")}
     cls = r.get("class")
-    if cls in ("timeout", "oom", "harness_error", "crash", "panic"):
+    if cls == "crash":
+        # the process died inside the analysis (e.g. unbounded recursion overflowing the stack): it did not halt
+        res.violation("c03:analysis-crashed:%s" % r.get("signal"), "the analysis process died: %s" % json.dumps(r)[:200], case)
+        return
+    if cls in ("timeout", "oom", "harness_error", "panic"):
         res.inconc("full:driver:%s" % cls)
         return
     mon = r["mon"]
@@ -166,7 +170,9 @@ def shard(shard_no, nshards, seed, tier, extra):
     d = common.Driver("rel", shim=True)
     for i in range(n):
         r = rng.random()
-        if r < 0.7:
+        if r < 0.1:
+            code, feats = progs.cyclic_types(rng)
+        elif r < 0.7:
             code, feats = progs.loopy(rng)
         elif r < 0.85:
             code, feats = progs.read_mask_write(rng)
@@ -202,7 +208,8 @@ def run(tier, seed, t0):
         PROP, tier, seed, res, "exploration",
         "control-flow shapes (tight self-loops, nested loops, two JUMPDESTs above a fork target, jump tables, "
         "stack-growing loops, fork bombs with shared targets, gas burners, random jump graphs, forward-only programs "
-        "with bad targets) and storage read-mask-write programs x iteration limit 1..12 x fork limit 1..60 x gas limit "
+        "with bad targets), storage read-mask-write programs and container-cyclic storage evidence (an array / mapping "
+        "element receiving its own slot's value, through 1-2 slots and 1-2 nesting levels) x iteration limit 1..12 x fork limit 1..60 x gas limit "
         "300..30M x strict/permissive. distinct = (bytecode, config); non-trivial = at least one fork or a repeated "
         "instruction. Halting is decided on logical steps (watchdog polls), never wall-clock.",
         t0, ["'always halts' is restated as: the VM ends within (1+F*J)*(L+1)*n*(copy factor) polls and unification "
